@@ -149,7 +149,8 @@ PROPS["C01"] = _pprop("ScpiVerif.Props.C01", [{"name": "p01", "cfgs": ["A", "B",
     # 'wrote outside the buffer' clauses count for C01, model differences and the other clauses are their own property's business
     {"name": "buffmt", "cfgs": ["A", "D"], "faults_only": True}, {"name": "intfmt", "cfgs": ["A"], "faults_only": True},
     {"name": "expr", "cfgs": ["A"], "faults_only": True}, {"name": "errstr", "cfgs": ["A", "B"], "faults_only": True},
-    {"name": "heap", "cfgs": ["B"], "faults_only": True}, {"name": "queue", "cfgs": ["A", "C"], "faults_only": True}],
+    {"name": "heap", "cfgs": ["B"], "faults_only": True}, {"name": "queue", "cfgs": ["A", "C"], "faults_only": True},
+    {"name": "match", "cfgs": ["A"], "faults_only": True}],
     ["C01.", "C15.write_beyond_buffer", "C14.write_beyond_buffer", "C15.nul_terminator", "C14.nul_terminator"],
     "mutated messages (byte flips, deletions, insertions, syntax characters, truncation), input buffers of 2..200 bytes, queue capacities 1..4, random segmentation with over-long chunks and zero-length calls, in all four build configurations under ASan+UBSan with the buffer-tail poisoning hook")
 
